@@ -17,7 +17,7 @@ EXPLANATION = (
     "relation), and the rewrite is applied only to the empty literal under its flag; C05.d removal reachability covers C "
     "reachability: every action template that stores a state index declares that state among its override targets with a "
     "mode dfs() follows, the conditional action aggregates modes in an order that keeps targets alive, dfs handles every "
-    "mode; C05.e each optimisation flag is read only by its own pass; C05.f range collapsing restarts its run at the "
+    "mode; C05.e each optimisation flag is read only by its own pass; C05.g neither rewriting loop of the short-circuit pass retargets a transition past an accepting state (resting there is observable: DONE). C05.f range collapsing restarts its run at the "
     "first non-consecutive value.")
 NOT_DECIDED = ("soundness of the short-circuit rewrite as a whole (foreign-else translation, thresholds), of the handles_else rewriting, and of range-collapse "
                "arithmetic beyond the run-restart condition; bisimilarity of the machines")
